@@ -212,8 +212,8 @@ theorem evalC_spec (W : World D S F) (hit : F → F → Bool) (hx : ∀ a b, hit
     (evalC W hit cfg st q).1.data = st.data ∧ (evalC W hit cfg st q).1.src = st.src ∧
     (evalC W hit cfg st q).1.sid = st.sid := by
   obtain ⟨i1, i2, i3, i4⟩ := interpCall_spec W hit hx cfg st q h
-  have b1 := pdGet_val cfg.cachePd st.sid (fun _ => W.bkg st.data st.src) st.bkgc 0 h.bkg_ok
-  have b2 := pdGet_valid cfg.cachePd st.sid (fun _ => W.bkg st.data st.src) st.bkgc 0 h.bkg_ok
+  have b1 := pdGet_val cfg.cacheBkg st.sid (fun _ => W.bkg st.data st.src) st.bkgc 0 h.bkg_ok
+  have b2 := pdGet_valid cfg.cacheBkg st.sid (fun _ => W.bkg st.data st.src) st.bkgc 0 h.bkg_ok
   refine ⟨?_, ⟨?_, ?_, ?_, ?_⟩, rfl, rfl, rfl⟩
   · simp only [evalC, evalPure]
     rw [i1, b1]
